@@ -246,19 +246,35 @@ class Tx:
 
     # ---------------- class methods (sections, chain)
     def chain_order(self, rep):
-        """Return 'self*TP' or 'TP*self' for XMatrix.chain"""
+        """Return 'self*TP' or 'TP*self' for XMatrix.chain.  The other operand may be converted to the
+        class's own representation first (`self * TP.Aparams` in AMatrix.chain): on an argument that already is
+        an X matrix that conversion is the identity; which conversion (if any) is applied is recorded in
+        `self.chain_arg_conv[rep]` ('raw' when the argument's entries are used as they are)."""
         f = self.classes.get(rep + 'Matrix', {}).get('chain')
         if f is None:
             raise Unparsed('%sMatrix.chain missing' % rep)
         ret = [s for s in f.body if isinstance(s, ast.Return)]
         other = f.args.args[1].arg
+
+        def operand(e):
+            if isinstance(e, ast.Name):
+                return e.id, 'raw'
+            if (isinstance(e, ast.Attribute) and isinstance(e.value, ast.Name) and e.value.id == other
+                    and e.attr.endswith('params') and len(e.attr) == 7 and e.attr[0] in REPS):
+                return e.value.id, e.attr
+            raise Unparsed('%sMatrix.chain operand %s' % (rep, ast.unparse(e)[:40]))
         if len(ret) == 1 and isinstance(ret[0].value, ast.BinOp) and isinstance(ret[0].value.op, ast.Mult):
-            l, r = ret[0].value.left, ret[0].value.right
-            if isinstance(l, ast.Name) and isinstance(r, ast.Name):
-                if (l.id, r.id) == ('self', other):
-                    return 'self*TP'
-                if (l.id, r.id) == (other, 'self'):
-                    return 'TP*self'
+            (l, lc), (r, rc) = operand(ret[0].value.left), operand(ret[0].value.right)
+            conv = rc if l == 'self' else lc
+            if conv not in ('raw', rep + 'params'):
+                raise Unparsed('%sMatrix.chain converts its argument with %s' % (rep, conv))
+            if not hasattr(self, 'chain_arg_conv'):
+                self.chain_arg_conv = {}
+            self.chain_arg_conv[rep] = conv
+            if (l, r) == ('self', other) and lc == 'raw':
+                return 'self*TP'
+            if (l, r) == (other, 'self') and rc == 'raw':
+                return 'TP*self'
         raise Unparsed('%sMatrix.chain body' % rep)
 
     def emit_chain(self, rep):
@@ -464,6 +480,11 @@ def generate(repo='/repo'):
     parts.append(',\n   '.join('("%s", [%s], [%s])' % (r, ', '.join('"%s"' % x for x in l), ', '.join('"%s"' % x for x in rr))
                                for r, (l, rr) in sorted(eqs.items())))
     parts.append(']\n\n')
+    cac = getattr(tx, 'chain_arg_conv', {})
+    parts.append('/-- `XMatrix.chain(TP)`: how the argument is brought to representation X before the product '
+                 '("raw" = its entries are used as they are, whatever its class) -/\n')
+    parts.append('def chainArgConv : List (String × String) :=\n  [' +
+                 ', '.join('("%s", "%s")' % (r, cac[r]) for r in sorted(cac)) + ']\n\n')
     convs = [n for n in tx.order if len(n) == 6 and n[1:5] == '_to_']
     scal = [n for n in tx.order if tx.routes[n].get('route') not in ('section', 'self*TP', 'TP*self') and n not in convs]
     secs = [n for n in tx.order if tx.routes[n].get('route') == 'section']
